@@ -1782,6 +1782,7 @@ func (r *seqRun) stepC23(name string, op Op, hr handleRef, base *mnode) {
 	wc := pick(fi.Wtmax, fi.Wtpref)
 	wcount := wc[int((op.Seed/7)%uint64(len(wc)))]
 	data := PayloadBytes(op.Seed, int(wcount))
+	oldHead := base.file.read(0, uint64(wcount)) // what the range held before
 	wres, err := r.cl.Write(hr.fh, 0, 2, data)
 	r.o.Checks++
 	which := fmt.Sprintf("which=%d", (op.Seed/7)%uint64(len(wc)))
@@ -1800,7 +1801,24 @@ func (r *seqRun) stepC23(name string, op Op, hr handleRef, base *mnode) {
 			r.vio("C23.write-count", "", "%s: WRITE count=%d reply count=%d", name, wcount, wres.Count)
 		} else {
 			base.file.write(0, data[:wres.Count])
+			// "possibly storing fewer bytes and saying so": the count in the reply is exactly what is stored
+			r.o.Checks++
+			got, _, _ := r.w.FS.ReadRange(hr.path, 0, int(wcount))
+			want := append(append([]byte(nil), data[:wres.Count]...), tailFrom(oldHead, int(wres.Count))...)
+			if len(got) < len(want) {
+				want = want[:len(got)]
+			}
+			if !eqBytes(got[:len(want)], want) || len(got) < int(wres.Count) {
+				r.vio("C23.write-count-not-what-is-stored", "", "%s: WRITE count=%d replied count=%d, but the backend does not hold exactly the first %d bytes of the payload there (first difference at %d of %d bytes)", name, wcount, wres.Count, wres.Count, firstDiff(got, want), len(got))
+			}
 		}
 	}
 	r.resync()
+}
+
+func tailFrom(b []byte, i int) []byte {
+	if i >= len(b) {
+		return nil
+	}
+	return b[i:]
 }
